@@ -149,6 +149,45 @@ func (e *Enc) extCall(ins ssa.Instruction, name string, callee *ssa.Function, si
 		e.defaultCall(ins, sig, res, map[string]bool{}, "")
 		return true
 	}
+	if strings.HasPrefix(name, "(*strings.Builder).") {
+		trust("ghost length: Write* grow the builder by the written length (WriteRune by 1..4); String/Len return it")
+		sb := e.heapGet(h, "$sb", "Int")
+		cur := app("select", sb, args[0].T)
+		grow := func(by string) {
+			h.m["$sb"] = app("store", sb, args[0].T, app("+", cur, by))
+			rs := e.freshResults(sig, h)
+			if len(rs) == 2 {
+				e.assert(implies(reach, app("=", rs[1].T, "nil")))
+			}
+			e.setResult(res, rs)
+		}
+		switch callee.Name() {
+		case "WriteString":
+			grow(app("strlen", args[1].T))
+		case "Write":
+			grow(app("slen", args[1].T))
+		case "WriteByte":
+			grow("1")
+		case "WriteRune":
+			n := e.fresh("runelen", "Int")
+			e.assert(and(app("<=", "1", n), app("<=", n, "4")))
+			grow(n)
+		case "String":
+			rs := e.freshResults(sig, h)
+			e.assert(implies(reach, app("=", app("strlen", rs[0].T), cur)))
+			e.setResult(res, rs)
+		case "Len":
+			if res != nil {
+				e.define(res, cur)
+			}
+		case "Reset":
+			h.m["$sb"] = app("store", sb, args[0].T, "0")
+		case "Grow":
+		default:
+			return false
+		}
+		return true
+	}
 	if strings.HasPrefix(name, "(*math/big.Int).") || name == "math/big.NewInt" {
 		return e.bigCall(ins, name, callee, sig, res, args)
 	}
